@@ -92,6 +92,15 @@ class World:
             self.idx(self.B, i, j),
             named(um.m_product(self.f, self.g), "f*g"),
             named(um.m_product(self.idx(self.u, i), self.g), "u[i]*g"),
+            # operands that are themselves results of the constructors under test (nested simplifications)
+            named(um.m_power(self.f, um.m_scalar(2)), "f**2"),
+            named(um.m_power(self.f, um.m_scalar(Fraction(1, 2))), "f**0.5"),
+            named(um.m_power(self.f, um.m_scalar(-1)), "f**-1"),
+            named(um.m_division(self.f, self.g), "f/g"),
+            named(um.m_sum(self.f, um.m_scalar(1)), "f+1"),
+            named(um.m_unary("Abs", "abs")(self.f), "abs(f)"),
+            named(um.m_scalar(3), "3"),
+            named(um.m_scalar(Fraction(3, 2)), "1.5"),
         ]
         return S
 
@@ -461,7 +470,7 @@ def run(ctx) -> Report:
     rep.counts["per class"] = dict(sorted(H.built.items()))
     rep.counts["ill-formed requests rejected"] = R.expected_raise
     rep.counts["row-wise list tensor patterns"] = n_rows
-    rep.require_min("C05-algebra", 800)
+    rep.require_min("C05-algebra", 2000)
     rep.require_min("C05-indexed", 60)
     rep.require_min("C05-getitem", 120)
     rep.require_min("C05-indexsum", 15)
